@@ -620,7 +620,7 @@ def _sweep_shard(ctx: Ctx, shard: int, nshards: int, hops: int, size: int, step:
 
 
 def run(ctx: Ctx) -> None:
-    shard_run(ctx, _random_shard, extra=(500 if ctx.quick else 4000,))
+    shard_run(ctx, _random_shard, extra=(500 if ctx.quick else 12000,))
     if ctx.quick:
         shard_run(ctx, _sweep_shard, extra=(2, 24, 3))
     else:
